@@ -156,6 +156,7 @@ func checkC03(c *Check) {
 		}
 	}
 	c03BodyReader(c)
+	c03NewSessionNeverWaits(c)
 	c03LMTPCommit(c)
 	c03FanOut(c)
 	c03CommitOrder(c)
@@ -379,11 +380,44 @@ func c03Assumption(c *Check) {
 					}
 					return true
 				})
+				// the log-out itself, a goroutine started for it (the previous session's lock may be busy), or a local
+				// closure that performs it
+				logsOut := func(body ast.Node) bool {
+					found := false
+					ast.Inspect(body, func(y ast.Node) bool {
+						if call, ok := y.(*ast.CallExpr); ok && methodName(call) == "Logout" && recvObj(hi, call) == prevObj && prevObj != nil {
+							found = true
+						}
+						return !found
+					})
+					return found
+				}
+				closureLogsOut := func(call *ast.CallExpr) bool {
+					if lit, ok := ast.Unparen(call.Fun).(*ast.FuncLit); ok {
+						return logsOut(lit.Body)
+					}
+					if id, ok := ast.Unparen(call.Fun).(*ast.Ident); ok {
+						if o := objOf(hi, id); o != nil {
+							if def, n := localDef(hi, holder.Decl.Body, o); n == 1 && def != nil {
+								if lit, ok := ast.Unparen(def).(*ast.FuncLit); ok {
+									return logsOut(lit.Body)
+								}
+							}
+						}
+					}
+					return false
+				}
 				logouts := h.F.Find(func(n ast.Node) bool {
 					for _, call := range callsAt(n) {
 						if methodName(call) == "Logout" && recvObj(hi, call) == prevObj && prevObj != nil {
 							return true
 						}
+						if closureLogsOut(call) {
+							return true
+						}
+					}
+					if g, ok := n.(*ast.GoStmt); ok && closureLogsOut(g.Call) {
+						return true
 					}
 					return false
 				})
@@ -1209,4 +1243,102 @@ func c03BodyReader(c *Check) {
 	if n < 3 {
 		c.Fail("R8", "buffer-functions", token.NoPos, "undecided: fewer than three functions from an io.Reader to a buffer.Buffer found (buffer.BufferInMemory, buffer.BufferInFile, the endpoint's auto mode)")
 	}
+}
+
+
+// R9: NewSession runs on the connection's command goroutine. From the first BDAT chunk on, the session's Data runs on
+// a goroutine of its own, holds the session's message lock and waits for chunks that only the command goroutine can
+// pass on. If NewSession (a repeated EHLO / LHLO) waits for that lock – by calling a method of the previous session
+// that takes it (Logout, Reset) – both goroutines wait for each other: the connection hangs, the open delivery is
+// never closed and its permits are never returned. Such a call is therefore made only after a successful TryLock
+// of that lock, or handed to a goroutine of its own.
+func c03NewSessionNeverWaits(c *Check) {
+	c.Rule("R9", "Endpoint.NewSession never waits for the message lock of the connection's previous session: a call of a Session method that takes the lock is dominated by a successful TryLock of it or runs in its own goroutine (the lock may be held by a BDAT transfer that waits for this very goroutine)", 1)
+	r := c.need("R9", smtpEndpRel, "Endpoint", "NewSession")
+	if r == nil {
+		return
+	}
+	info := r.Info
+	p := c.P
+	// Session methods that take the message lock
+	takes := map[*types.Func]bool{}
+	for _, fi := range funcsOfPkgs(p, smtpEndpRel) {
+		sig := fi.Obj.Type().(*types.Signature)
+		if sig.Recv() == nil || namedOf(sig.Recv().Type()) == nil || objName(namedOf(sig.Recv().Type()).Obj()) != "Session" {
+			continue
+		}
+		for _, call := range callsIn(fi.Decl.Body) {
+			if methodName(call) == "Lock" && isField(fi.Info(), callRecv(call), "Session", "msgLock") {
+				takes[fi.Obj] = true
+			}
+		}
+	}
+	if len(takes) == 0 {
+		c.Fail("R9", "NewSession:lock-takers", r.FI.Decl.Pos(), "undecided: no Session method takes the message lock")
+		return
+	}
+	// calls in NewSession's own flow (closures that are only called are read in place; `go` literals are not part of it)
+	n := 0
+	msg := ""
+	var visit func(body *ast.BlockStmt, flowName string, async bool)
+	visit = func(body *ast.BlockStmt, flowName string, async bool) {
+		f := p.FlowOf(info, body, flowName)
+		lr := &RuleCtx{C: c, FI: r.FI, F: f, Info: info}
+		for _, pt := range f.Points() {
+			nd := pt.Node()
+			if nd == nil {
+				continue
+			}
+			if g, isGo := nd.(*ast.GoStmt); isGo {
+				_ = g
+				continue // runs elsewhere
+			}
+			var calls []*ast.CallExpr
+			for _, call := range callsAt(nd) {
+				calls = append(calls, call)
+				// a local closure called in place performs its calls here
+				if id, ok := ast.Unparen(call.Fun).(*ast.Ident); ok {
+					if o := objOf(info, id); o != nil {
+						if def, nd := localDef(info, r.FI.Decl.Body, o); nd == 1 && def != nil {
+							if lit, ok := ast.Unparen(def).(*ast.FuncLit); ok {
+								calls = append(calls, callsIn(lit.Body)...)
+							}
+						}
+					}
+				}
+			}
+			for _, call := range calls {
+				fn := callee(info, call)
+				if fn == nil || !takes[fn] {
+					continue
+				}
+				// only sessions obtained from the connection can be busy; the session this call has just created is not
+				if ro := recvObj(info, call); ro != nil {
+					if def, nd := localDef(info, r.FI.Decl.Body, ro); nd == 1 && def != nil && !strings.Contains(exprStr(def), "Session()") {
+						continue
+					}
+				}
+				n++
+				if async {
+					continue
+				}
+				// dominated by a successful TryLock on the same session's lock?
+				recv := exprStr(callRecv(call))
+				tryOK := f.AvoidImplying(func(atom ast.Expr) (bool, bool) {
+					if tc, ok := ast.Unparen(atom).(*ast.CallExpr); ok && methodName(tc) == "TryLock" {
+						if sel, ok := ast.Unparen(callRecv(tc)).(*ast.SelectorExpr); ok && exprStr(sel.X) == recv {
+							return true, true // remove the edges on which TryLock succeeded
+						}
+					}
+					return false, false
+				})
+				if path, reach := f.Reach(Query{From: lr.Entry(), Inclusive: true, Target: func(q Pt) bool { return q == pt }, AvoidEdge: tryOK}); reach {
+					msg = "NewSession calls " + exprStr(call.Fun) + ", which waits for the previous session's message lock, without having found the lock free (TryLock) and not in a goroutine of its own: after `BDAT n` (not LAST) the lock is held by the transfer, which waits for this goroutine – a repeated EHLO hangs the connection for good, the delivery stays open and its permits taken: " + f.Describe(path)
+				}
+			}
+		}
+	}
+	visit(r.FI.Decl.Body, r.FI.Name(), false)
+	c.Hold("R9", "NewSession:never-waits-for-previous-session", r.FI.Decl.Pos(), msg == "", msg)
+	_ = n
 }
